@@ -743,6 +743,7 @@ class StmtMixin:
             return True
         sol = z3.Solver()
         sol.set("timeout", 300)
+        sol.set("rlimit", 400000)
         for p in st.pc:
             if z3.is_quantifier(p):
                 continue
